@@ -255,7 +255,7 @@ static_assert(sizeof(mpt::array) == sizeof(mpt::buffer *), "array layout");
 struct Mdl { const mpt::type_traits *tr; std::vector<uint8_t> b; };
 
 enum RK { C_APPEND, C_INSERT, C_SLICE, C_SET, C_RESERVE, C_REDUCE, C_PRINTF, C_STRING, C_CUT, C_BINSERT, C_BSET, C_CLONE, R_SWAP, S_ASSIGN, S_CLEAR, S_WRITE, S_TAKE, S_CONSUME,
-          X_APPEND, X_INSERT, X_PREPEND, X_SET, X_ASSIGN, X_CLEAR, X_FROMSLICE, X_ADD, X_PRINTF, X_STRING, X_SETVALUE, X_SETREF, XS_FROM, XS_CLEAR, XS_SHIFT, XS_TRIM, XS_WRITE, XS_TAKE, C_DETACH, C_HUGE, S_HUGE, X_HUGE, X_PREPARE };
+          X_APPEND, X_INSERT, X_PREPEND, X_SET, X_ASSIGN, X_CLEAR, X_FROMSLICE, X_ADD, X_PRINTF, X_STRING, X_SETVALUE, X_SETREF, XS_FROM, XS_CLEAR, XS_SHIFT, XS_TRIM, XS_WRITE, XS_TAKE, C_DETACH, C_HUGE, S_HUGE, X_HUGE, X_PREPARE, X_INSOWN, X_SETOWN, X_ESHIFT };
 struct Inst { int k, a, b, c; };
 static const char *Pn[] = { "0", "1", "used-1", "used", "used+2", "used/2" };
 static const char *Ln[] = { "0", "1", "3", "left-1", "left", "left+1" };
@@ -293,6 +293,9 @@ static void build_tables()
 	for (int li = 0; li < 6; ++li) x.push_back(Inst{X_APPEND, li, 1, 0});
 	x.push_back(Inst{X_APPEND, 1, 0, 0}); x.push_back(Inst{X_APPEND, 5, 0, 0}); x.push_back(Inst{X_APPEND, 0, 2, 0}); x.push_back(Inst{X_APPEND, 1, 2, 0}); x.push_back(Inst{X_APPEND, 0, 3, 0});
 	x.push_back(Inst{X_PREPARE, 0, 0, 0}); x.push_back(Inst{X_PREPARE, 1, 0, 0});
+	for (int pi = 0; pi < 3; ++pi) for (int si = 0; si < 2; ++si) x.push_back(Inst{X_INSOWN, pi, si, 0});
+	x.push_back(Inst{X_SETOWN, 0, 0, 0}); x.push_back(Inst{X_SETOWN, 1, 0, 0}); x.push_back(Inst{X_SETOWN, 2, 0, 0});
+	x.push_back(Inst{X_ESHIFT, 0, 0, 0});
 	for (int pi = 0; pi < 5; ++pi) for (int li = 0; li < 6; ++li) x.push_back(Inst{X_INSERT, pi, li, (pi * 6 + li) % 5 ? 1 : 0});
 	x.push_back(Inst{X_PREPEND, 1, 1, 0}); x.push_back(Inst{X_PREPEND, 2, 0, 0});
 	for (int si = 0; si < 7; ++si) x.push_back(Inst{X_SET, si, si % 3 ? 1 : 0, 0});
@@ -487,6 +490,9 @@ template <int API> std::string RawSys<API>::opname(int op)
 	case S_WRITE: case XS_WRITE: { static const char *zn[] = { "0", "1", "3", "avail-1", "avail", "avail+1", "avail+off" }; return fmt("%s(%d,%s,%s)", in.k == S_WRITE ? "mpt_slice_write" : "slice::write", in.a, in.c ? "data" : "NULL", zn[in.b]); }
 	case X_APPEND: return in.b == 3 ? std::string("a0+=span(a0.base(),used)") : (in.b == 2 ? fmt("array::append(%s,a0.base())", in.a ? "1" : "used") : fmt("array::append(%s,%s)", Ln[in.a], in.b ? "data" : "NULL"));
 	case X_PREPARE: return fmt("encode_array(a0)::prepare(%s)", in.a ? "left+1" : "1");
+	case X_INSOWN: { static const char *pn[] = { "0", "used/2", "used" }; return fmt("array::insert(%s,n,a0's own %s bytes)", pn[in.a], in.b ? "last" : "first"); }
+	case X_SETOWN: { static const char *sn[] = { "array::set(used-2,own data+2)", "array::set(2,own data)", "array::set(used/2,own data+used/2)" }; return sn[in.a]; }
+	case X_ESHIFT: return "encode_array(a0,done=2)::shift(0)";
 	case X_INSERT: return fmt("array::insert(%s,%s,%s)", Pn[in.a], Ln[in.b], in.c ? "data" : "NULL");
 	case X_PREPEND: return fmt("array::prepend(%s,%s)", Ln[in.a], in.b ? "data" : "NULL");
 	case X_SET: { static const char *sn[] = { "0", "1", "used-1", "used", "used+1", "cap", "cap+1" }; return fmt("array::set(%s,%s)", sn[in.a], in.b ? "data" : "NULL"); }
@@ -510,7 +516,7 @@ static const char *raw_hint(int k)
 	static const char *n[] = { "mpt_array_append", "mpt_array_insert", "mpt_array_slice", "mpt_array_set", "mpt_array_reserve", "mpt_array_reduce", "mpt_printf", "mpt_array_string",
 		"mpt_buffer_cut", "mpt_buffer_insert", "mpt_buffer_set", "mpt_array_clone", "swap", "slice=", "slice=", "mpt_slice_write", "slice=", "slice.off+=",
 		"array::append", "array::insert", "array::prepend", "array::set", "array::operator=", "array::operator=", "array::operator=(slice)", "array::operator+=", "array::printf", "array::string",
-		"array::set(value)", "array::set(reference)", "slice=", "slice=", "slice::shift", "slice::trim", "slice::write", "slice=", "buffer::detach", "huge-argument", "mpt_slice_write", "huge-argument", "encode_array::prepare" };
+		"array::set(value)", "array::set(reference)", "slice=", "slice=", "slice::shift", "slice::trim", "slice::write", "slice=", "buffer::detach", "huge-argument", "mpt_slice_write", "huge-argument", "encode_array::prepare", "array::insert", "array::set", "encode_array::shift" };
 	return n[k];
 }
 template <int API> bool RawSys<API>::apply(int op)
@@ -1088,6 +1094,46 @@ template <int API> bool RawSys<API>::apply_x(const Inst &in)
 			ok = e.prepare(len);
 			h[0].b = e._d._buf._ref; e._d._buf._ref = 0; });
 		if (!fault) realloc_seen();
+		return check(base, desc, 0, !ok); }
+	case X_INSOWN: {
+		// the inserted bytes are a range of the array itself (v.insert(v.begin() + pos, v.begin() + k, v.begin() + k + n) for a vector)
+		if (!b || b->_content_traits || used < 2) return false;
+		len = (left + 1 <= used) ? (long) left + 1 : 2;      // nearly full buffers: the insert has to reallocate
+		if ((size_t) len > used || (size_t) len > PATN) return false;
+		long PI[3] = { 0, (long) (used / 2), (long) used };
+		pos = PI[in.a]; size_t so = in.b ? used - len : 0;
+		const std::vector<uint8_t> add(mb.begin() + so, mb.begin() + so + len);
+		mk("array::insert", argcls(pos, len, used, cap, false) + ",own-content"); nontrivial(b);
+		void *ret = 0;
+		fault = guarded([&] { mc::Lib l; ret = arr(0)->insert(pos, len, bdata(b) + so); });
+		if (!fault && ret) {
+			realloc_seen();
+			mb.insert(mb.begin() + pos, add.begin(), add.end());
+			stat(used + len > cap ? "insert-own-content,reallocating" : "insert-own-content,in-place");
+		}
+		return check(base, desc, 0, !ret); }
+	case X_SETOWN: {
+		// assign a range of the array's own bytes (v.assign(...) from the old content: drop leading bytes / keep a prefix / keep the tail half)
+		if (!b || used < 4) return false;
+		size_t so = in.a == 0 ? 2 : (in.a == 1 ? 0 : used / 2);
+		len = in.a == 0 ? (long) used - 2 : (in.a == 1 ? 2 : (long) (used - used / 2));
+		const std::vector<uint8_t> keep(mb.begin() + so, mb.begin() + so + len);
+		mk("array::set", std::string(b->_content_traits ? "typed-source" : "raw-source") + ",own-content"); nontrivial(b);
+		void *ret = 0;
+		fault = guarded([&] { mc::Lib l; ret = arr(0)->set(len, bdata(b) + so); });
+		if (!fault && ret) { realloc_seen(); mb = keep; stat(h[0].b != b ? "set-own-content,new-buffer" : "set-own-content,in-place"); }
+		return check(base, desc, 0, !ret); }
+	case X_ESHIFT: {
+		// encode_array without encoder: two finished bytes at the end of the data are moved to the front, the rest is dropped
+		if (!b || b->_content_traits || used < 3) return false;
+		const std::vector<uint8_t> keep(mb.end() - 2, mb.end());
+		mk("encode_array::shift", "-"); nontrivial(b);
+		bool ok = false;
+		fault = guarded([&] { mc::Lib l; mpt::encode_array e;
+			e._d._buf._ref = (mpt::array::content *) h[0].b; h[0].b = 0; e._state.done = 2; e._state.scratch = 0;
+			ok = e.shift(0);
+			h[0].b = e._d._buf._ref; e._d._buf._ref = 0; });
+		if (!fault && ok) { realloc_seen(); mb = keep; }
 		return check(base, desc, 0, !ok); }
 	case X_HUGE: {
 		static const char *on[] = { "array::insert", "array::append", "array::set", "array::insert" };
@@ -1950,7 +1996,8 @@ static void required(Run &r, char fam)
 	static const char *x[] = { "array::append:ok", "array::insert:ok", "array::insert:refused", "array::set:ok", "array::operator=:ok", "array::operator=(slice):ok", "array::operator+=:ok", "printf:ok",
 		"slice::shift:ok", "slice::shift:refused", "slice::trim:ok", "slice::trim:refused", "slice_write:ok", "reallocated", "target-shared-or-immutable",
 		"slice-write:consumed-window,sole", "slice-write:consumed-window,shared", "slice-write:compaction,shorter-than-old-data",
-		"huge-argument:refused", "append-own-content,in-place", "append-own-content,reallocating", "encode_array::prepare:ok", 0 };
+		"huge-argument:refused", "append-own-content,in-place", "append-own-content,reallocating", "encode_array::prepare:ok",
+		"insert-own-content,in-place", "insert-own-content,reallocating", "set-own-content,in-place", "set-own-content,new-buffer", "encode_array::shift:ok", 0 };
 	static const char *t[] = { "insert:ok", "insert:refused", "set:ok", "set:refused", "get:ok", "get:refused", "resize:ok", "resize:refused", "reserve:ok", "detach:ok", "assign:ok", "reallocated", "target-shared-or-immutable",
 		"insert-own-element,in-place", "insert-own-element,reallocating", "index-beyond-address-range:refused", "insert:new-element-left-as-constructed", 0 };
 	static const char *p[] = { "pointer_array::insert:ok", "pointer_array::set:ok", "pointer_array::compact:ok", "pointer_array::swap:ok", "pointer_array::swap:refused", "assign:ok", "target-shared-or-immutable", "swap-on-shared-buffer", 0 };
